@@ -397,8 +397,20 @@ class Grid(object):
                       + f" data has {ncols}, but expects {self.ncols}."
             raise ValueError(errmess)
 
-        self._data = np.clip(_value, self.mindata,
-                             self.maxdata).astype(self.dtype)
+        self._data = self._clipdata(_value)
+
+    def _clipdata(self, data):
+        """ Clip data to [mindata, maxdata] and convert to grid dtype.
+        Infinite limits are ignored: comparing 64 bits integers with
+        an infinite float converts them to floats, which is not exact.
+        """
+        if np.isfinite(self.mindata):
+            data = np.maximum(data, self.mindata)
+
+        if np.isfinite(self.maxdata):
+            data = np.minimum(data, self.maxdata)
+
+        return data.astype(self.dtype)
 
     @property
     def nodata(self):
@@ -510,8 +522,7 @@ class Grid(object):
                       + f" expecting {nval}."
             raise ValueError(errmess)
 
-        self._data = np.clip(data.reshape((self.nrows, self.ncols)),
-                             self.mindata, self.maxdata).astype(self.dtype)
+        self._data = self._clipdata(data.reshape((self.nrows, self.ncols)))
 
     def to_dict(self):
         """ Export grid metadata to json """
